@@ -495,6 +495,8 @@ def check(pid, tier, replay_file=None):
         inconclusive.extend(inc)
         classes.update(info)
 
+    if evaluations >= 20 and incon_cases * 5 > evaluations:
+        inconclusive.append("%d of %d cases could not be evaluated (setup did not complete; overloaded machine, or nodes do not connect)" % (incon_cases, evaluations))
     wall = time.time() - t0
     level = cfg.get("level", "exploration")
     cov = {
